@@ -432,7 +432,8 @@ def analyse(body, markers, exception_edges, displaced_ok=True):
                 for (eplace, econd, eedge), reason in exception_edges.items():
                     # a place is named by its text (parameters by position) or, for let-bound locals, by its type: `<Vec<IppValue>>`
                     ccond, cedge = canon_exception(econd, eedge)
-                    if (econd == cond or ccond == cond) and eplace in (desc, "<%s>" % t["pty"]):
+                    # (`let Self { reader, state } = self` makes `self.state.context` the place `state.context`)
+                    if (econd == cond or ccond == cond) and (eplace in (desc, "<%s>" % t["pty"]) or eplace.replace("self.", "", 1) == desc.replace("self.", "", 1)):
                         for val in list(tt["vals"]) + ["otherwise"]:
                             if str(m.canon_edge(b2, val)) in (str(eedge), str(cedge)) and (econd == cond or str(m.canon_edge(b2, val)) == str(cedge)):
                                 cut.add((b2, val))
